@@ -1,5 +1,6 @@
 import OjgVerif.Sen.LemmasReset
 import OjgVerif.Sen.LemmasKey
+import OjgVerif.Sen.LemmasTokReuse
 import OjgVerif.Gen.SenFacts
 /-! # C07 (SEN clause) — a reused sen.Parser behaves like a fresh one (model level)
 
@@ -28,8 +29,12 @@ entry points perform.
 * BEFORE ece2934 (`keepPlus := true`): `reused_like_fresh_before_false` — with `plus` left set by a
   failed call, `[x "a"]` parsed to `["xa"]` (finding C07sen-plus-not-reset), and `plus_survived_before`.
 
-NOT a theorem: the tokenizer profile (only the repaired witness of f540857, see the end of the file), the Reuse
-map recycling, that
+`tokenizer_reused_like_fresh` (`_sen`, `tokenizer_reused_like_fresh_full_current`): the same FULL statement for the
+sen.Tokenizer profile as it is (`exkey` reset at entry since f540857): the fields `Tokenizer.Parse`/`Load` do not
+reset — `ri`, `rn`, the number accumulator, `quoteDelim` — are dead on entry (`Sen.call_tokenizer_ref`, a simulation
+with the relation `SameT`).
+
+NOT a theorem: the Reuse map recycling, that
 the Go code behaves like the model. These are decided by the correspondence run: random call histories on
 one sen.Parser / one sen.Tokenizer, each call compared with a fresh instance and with the model. -/
 namespace OjgVerif.C07sen
@@ -205,5 +210,37 @@ theorem tokenizer_exkey_witness_current :
       | .ok _ => true | .error _ => false) =
     (match run refTables { tokenizer := true } [[91, 97, 32, 98, 93]] with | .ok _ => true | .error _ => false) := by
   decide +kernel
+
+/-- the tokenizer as it is: `exkey` reset at entry (f540857), the switch of f233b47, `}` after a member name an
+error (546d576) -/
+def CurrentT (cfg : Cfg) : Prop :=
+  cfg.tokenizer = true ∧ cfg.tkOld = false ∧ cfg.missingValue = false ∧ cfg.keepExkey = false ∧ cfg.keepPlus = false
+
+/-- **C07 (SEN tokenizer), full form for the code as it is**: a call on a reused sen.Tokenizer answers exactly what
+the same call on a fresh one answers — same callbacks, same error kind, line and column — whatever state (`ri`, `rn`,
+number accumulator, `quoteDelim`, and before the entry reset `exkey`) the previous calls left, for every
+configuration, input and chunking, over every table set that passes `TablesOK` -/
+theorem tokenizer_reused_like_fresh {T : Tables} (hT : TablesOK T) (cfg : Cfg) (hcur : CurrentT cfg) (prev : St)
+    (chunks : List Bytes) : answer (call T cfg prev chunks) = answer (run T cfg chunks) := by
+  unfold run
+  rw [call_eq_ref hT, call_eq_ref hT]
+  exact call_tokenizer_ref cfg hcur.1 hcur.2.1 hcur.2.2.1 hcur.2.2.2.1 hcur.2.2.2.2 prev chunks
+
+/-- the same over the regenerated `sen/maps.go` -/
+theorem tokenizer_reused_like_fresh_sen (cfg : Cfg) (hcur : CurrentT cfg) (prev : St) (chunks : List Bytes) :
+    answer (call senTables cfg prev chunks) = answer (run senTables cfg chunks) :=
+  tokenizer_reused_like_fresh senTables_ok cfg hcur prev chunks
+
+/-- the full statement holds for the tokenizer as it is -/
+theorem tokenizer_reused_like_fresh_full_current : tokenizer_reused_like_fresh_full { tokenizer := true } := by
+  intro prev chunks
+  have hT : TablesOK refTables := ⟨fun _ _ => rfl, fun _ => rfl, fun _ _ => rfl, rfl, rfl⟩
+  have h := tokenizer_reused_like_fresh hT { tokenizer := true } ⟨rfl, rfl, rfl, rfl, rfl⟩ prev chunks
+  have e : ∀ r : Except Err Out, (match answer r with | .ok _ => true | .error _ => false) =
+      (match r with | .ok _ => true | .error _ => false) := by intro r; cases r <;> rfl
+  have e1 := e (call refTables { tokenizer := true } prev chunks)
+  have e2 := e (run refTables { tokenizer := true } chunks)
+  rw [h] at e1
+  exact e1.symm.trans e2
 
 end OjgVerif.C07sen
